@@ -18,19 +18,23 @@ const (
 	XSD    = "http://www.w3.org/2001/XMLSchema#"
 )
 
-// Lit is a literal value. K: "s" string, "i" integer, "b" boolean, "f" decimal.
+// Lit is a literal value. K: "s" string, "i" integer, "b" boolean, "f" decimal, "t" typed literal (lexical form S, datatype DT).
 type Lit struct {
-	K string  `json:"k"`
-	S string  `json:"s,omitempty"`
-	I int64   `json:"i,omitempty"`
-	B bool    `json:"b,omitempty"`
-	F float64 `json:"f,omitempty"`
+	K  string  `json:"k"`
+	DT string  `json:"dt,omitempty"`
+	S  string  `json:"s,omitempty"`
+	I  int64   `json:"i,omitempty"`
+	B  bool    `json:"b,omitempty"`
+	F  float64 `json:"f,omitempty"`
 }
 
 func S(s string) Lit   { return Lit{K: "s", S: s} }
 func I(i int64) Lit    { return Lit{K: "i", I: i} }
 func B(b bool) Lit     { return Lit{K: "b", B: b} }
 func Fl(f float64) Lit { return Lit{K: "f", F: f} }
+
+// Typed is a literal with an explicit datatype IRI, e.g. Typed("5", XSD+"integer").
+func Typed(lex, dt string) Lit { return Lit{K: "t", S: lex, DT: dt} }
 
 // Key is a canonical identity of the literal (type-sensitive).
 func (l Lit) Key() string {
@@ -41,6 +45,8 @@ func (l Lit) Key() string {
 		return "i:" + strconv.FormatInt(l.I, 10)
 	case "b":
 		return "b:" + strconv.FormatBool(l.B)
+	case "t":
+		return "t:" + l.DT + "^^" + l.S
 	default:
 		return "f:" + strconv.FormatFloat(l.F, 'g', -1, 64)
 	}
@@ -184,6 +190,7 @@ type LDOpts struct {
 	TypeString bool  `json:"type_string,omitempty"` // @type as string when there is one class
 	TypeRev    bool  `json:"type_rev,omitempty"`    // list the classes of a node in reverse order
 	NativeLit  bool  `json:"native_lit,omitempty"`  // x instead of {"@value":x}
+	XsdPrefix  bool  `json:"xsd_prefix,omitempty"`  // with Context: write datatype IRIs of typed literals as xsd:<local>
 	DupValues  bool  `json:"dup_values,omitempty"`  // repeat the first value of multi-valued properties
 	SplitNodes bool  `json:"split_nodes,omitempty"` // emit nodes with >1 property as two entries with the same @id
 	Indent     int   `json:"indent,omitempty"`      // 0 compact, n spaces
@@ -337,6 +344,15 @@ func (g *Graph) JSONLD(o LDOpts) string {
 						r.set("@id", nid(g.Nodes[v.Node].ID))
 						jv = r
 					}
+				} else if v.Lit.K == "t" {
+					r := newOmap()
+					r.set("@value", v.Lit.S)
+					dt := v.Lit.DT
+					if o.Context && o.XsdPrefix && strings.HasPrefix(dt, XSD) {
+						dt = "xsd:" + strings.TrimPrefix(dt, XSD)
+					}
+					r.set("@type", dt)
+					jv = r
 				} else if o.NativeLit {
 					jv = v.Lit.JSON()
 				} else {
@@ -384,6 +400,9 @@ func (g *Graph) JSONLD(o LDOpts) string {
 		}
 		if o.Base {
 			ctx.set("@base", NodeNS)
+		}
+		if o.XsdPrefix {
+			ctx.set("xsd", XSD)
 		}
 	}
 	switch {
